@@ -25,7 +25,8 @@ import time
 VERIF = os.path.dirname(os.path.dirname(os.path.abspath(__file__)))
 REPO = os.environ.get("VERIF_REPO", "/repo")
 COQ = os.path.join(VERIF, "coq")
-WORK = os.path.join(VERIF, ".work")
+ALT = os.path.abspath(REPO) != "/repo"   # a scratch worktree: separate work dir, no evidence, no gen
+WORK = os.path.join(VERIF, ".work") if not ALT else os.path.join(VERIF, ".work", "alt-" + hashlib.sha1(os.path.abspath(REPO).encode()).hexdigest()[:8])
 GOENV = dict(os.environ, GOFLAGS="-mod=mod", GOPROXY="off", GOSUMDB="off", GOTOOLCHAIN="local",
              CGO_ENABLED=os.environ.get("CGO_ENABLED", "0"))
 
@@ -50,8 +51,9 @@ def run(cmd, cwd=None, env=None, timeout=1200, shell=False):
 
 class Lock:
     def __init__(self, name):
-        os.makedirs(WORK, exist_ok=True)
-        self.path = os.path.join(WORK, name + ".lock")
+        base = os.path.join(VERIF, ".work") if name in ("coq", "gen") else WORK
+        os.makedirs(base, exist_ok=True)
+        self.path = os.path.join(base, name + ".lock")
 
     def __enter__(self):
         self.f = open(self.path, "w")
@@ -84,6 +86,8 @@ def regenerate():
     tdir = os.path.join(VERIF, "translator")
     if not os.path.exists(os.path.join(tdir, "go.mod")):
         return True, "no translator"
+    if ALT:
+        return True, "alternate repository: generated tables are not refreshed"
     with Lock("gen"):
         run(["cp", os.path.join(REPO, "go.sum"), os.path.join(tdir, "go.sum")])
         out_dir = os.path.join(WORK, "gen_new")
@@ -182,7 +186,14 @@ def build_harness():
     hdir = os.path.join(VERIF, "harness")
     with Lock("harness"):
         run(["cp", os.path.join(REPO, "go.sum"), os.path.join(hdir, "go.sum")])
-        rc, out = run(["go", "build", "-tags", "verif", "-o", os.path.join(WORK, "harness.bin"), "."], cwd=hdir, env=GOENV, timeout=900)
+        cmd = ["go", "build", "-tags", "verif", "-o", os.path.join(WORK, "harness.bin")]
+        if ALT:
+            mod = open(os.path.join(hdir, "go.mod")).read().replace("=> /repo", "=> " + os.path.abspath(REPO))
+            modfile = os.path.join(WORK, "harness.mod")
+            open(modfile, "w").write(mod)
+            run(["cp", os.path.join(REPO, "go.sum"), os.path.join(WORK, "harness.sum")])
+            cmd.append("-modfile=" + modfile)
+        rc, out = run(cmd + ["."], cwd=hdir, env=GOENV, timeout=900)
         return rc == 0, out
 
 
@@ -413,7 +424,7 @@ def check(prop, tier, seed, cfg, replay=None):
             "known_findings_hit": known_hit,
         })
     coverage["broken_obligations"] = [{"what": w, "detail": d[:500]} for w, d in broken]
-    if not replay:
+    if not replay and not ALT:
         write_evidence(prop, tier, seed, coverage, cfg.get("assumptions", []), time.time() - t0,
                    len(reported) + (1 if (broken and not reported) else 0))
     log("%s: %s in %.1fs (%d theorems, %d cases, %d mismatches, %d broken)" % (
